@@ -112,14 +112,41 @@ def serve_shape(serve: ast.FunctionDef) -> bool:
     return per_module_impl
 
 
+def method(mod: ast.Module, cls: str, name: str) -> ast.FunctionDef:
+    for n in mod.body:
+        if isinstance(n, ast.ClassDef) and n.name == cls:
+            for m in n.body:
+                if isinstance(m, ast.FunctionDef) and m.name == name:
+                    return m
+    raise T07Error(f"method {cls}.{name} not found")
+
+
+def failure_handling(b: ast.Module) -> dict[str, bool]:
+    """How the coordinator handles a failing worker: does wait_for_done_workers re-raise a blocker reply before using the
+    reply's results, and does receive_worker_message turn a lost connection into an OSError?"""
+    wd = method(b, "BuildManager", "wait_for_done_workers")
+    raises = [n for n in ast.walk(wd) if isinstance(n, ast.Raise) and n.exc is not None and ast.unparse(n.exc) == "data.blocker"]
+    uses = [n.lineno for n in ast.walk(wd) if isinstance(n, ast.Call) and ast.unparse(n.func) == "results.update"]
+    if not uses:
+        raise T07Error("wait_for_done_workers: results.update(...) not found")
+    abort_on_blocker = bool(raises) and min(r.lineno for r in raises) < min(uses)
+    rm = method(b, "BuildManager", "receive_worker_message")
+    handlers = [h for n in ast.walk(rm) if isinstance(n, ast.Try) for h in n.handlers]
+    abort_on_lost = any(h.type is not None and "OSError" in ast.unparse(h.type)
+                        and any(isinstance(x, ast.Raise) for x in ast.walk(h)) for h in handlers)
+    return {"abort_on_blocker": abort_on_blocker, "abort_on_lost_worker": abort_on_lost}
+
+
 def extract() -> dict[str, bool]:
     b = ast.parse(vlib.read_repo("mypy/build.py"))
     w = ast.parse(vlib.read_repo("mypy/build_worker/worker.py"))
     pm_iface = loop_protocol(func(b, "process_stale_scc_interface"))
     pm_impl_loop = loop_protocol(func(b, "process_stale_scc_implementation"))
     per_module = serve_shape(func(w, "serve"))
-    return {"pm_iface": pm_iface, "pm_impl": pm_impl_loop and per_module,
-            "impl_loop_commits": pm_impl_loop, "serve_impl_per_module": per_module}
+    out = {"pm_iface": pm_iface, "pm_impl": pm_impl_loop and per_module,
+           "impl_loop_commits": pm_impl_loop, "serve_impl_per_module": per_module}
+    out.update(failure_handling(b))
+    return out
 
 
 def render(flags: dict[str, bool]) -> str:
@@ -127,7 +154,10 @@ def render(flags: dict[str, bool]) -> str:
     return ("(* GENERATED from mypy/build.py and mypy/build_worker/worker.py by tools/extractors/t07.py -- do not edit;\n"
             "   regenerated on every run.  Commit protocol of the per-module loops of the parallel worker. *)\n"
             f"Definition pm_iface : bool := {b(flags['pm_iface'])}.\n"
-            f"Definition pm_impl : bool := {b(flags['pm_impl'])}.\n")
+            f"Definition pm_impl : bool := {b(flags['pm_impl'])}.\n"
+            "(* coordinator: a blocker reply is re-raised before its results are used; a lost worker connection raises *)\n"
+            f"Definition abort_on_blocker : bool := {b(flags['abort_on_blocker'])}.\n"
+            f"Definition abort_on_lost_worker : bool := {b(flags['abort_on_lost_worker'])}.\n")
 
 
 def generate() -> dict[str, str]:
